@@ -206,18 +206,21 @@ def f_xaddrs(epr, v):
 
 
 def st_history(long_ids: bool):
-    ann = st.tuples(st.sampled_from(['hello', 'probematch', 'resolvematch']), st.sampled_from(EPRS), st.integers(1, 5),
-                    st.booleans(), st.booleans(), st.booleans(), st.integers(0, 400)).map(list)
-    bye = st.tuples(st.just('bye'), st.sampled_from(EPRS), st.integers(0, 400)).map(list)
+    mid = st.one_of(st.integers(0, 6), st.integers(0, 6), st.integers(0, 400))  # a small pool makes duplicates frequent
+    ann = st.tuples(st.sampled_from(['hello', 'probematch', 'resolvematch']), st.sampled_from(EPRS), st.integers(0, 5),
+                    st.booleans(), st.booleans(), st.booleans(), mid).map(list)
+    bye = st.tuples(st.just('bye'), st.sampled_from(EPRS), mid).map(list)
     probe = st.tuples(st.just('probe'), st.one_of(st.none(), st.lists(st.sampled_from([('urn:t', 'A'), ('urn:t', 'B'), ('urn:x', 'Z')]), max_size=2)),
                       st.one_of(st.none(), st.tuples(st.lists(st.sampled_from(['http://example.org/l1', 'HTTP://EXAMPLE.org/l1/sub', 'http://example.org/zz', 'sdc.ctxt.loc:/r']), max_size=2),
                                                      st.sampled_from([RFC3986, STRCMP, None]))),
-                      st.integers(0, 400)).map(list)
-    resolve = st.tuples(st.just('resolve'), st.sampled_from(LOCAL + ['urn:uuid:unknown', EPRS[0]]), st.integers(0, 400)).map(list)
+                      mid).map(list)
+    resolve = st.tuples(st.just('resolve'), st.sampled_from(LOCAL + ['urn:uuid:unknown', EPRS[0]]), mid).map(list)
     filler = st.tuples(st.just('filler'), st.integers(201, 230)).map(list)
     steps = [ann, ann, ann, bye, probe, resolve]
     if long_ids:
-        steps.append(filler)
+        # the memory of 200 ids is full from the start, and may be flushed again later
+        return st.tuples(filler, st.lists(st.one_of([*steps, probe, resolve, filler]), min_size=1, max_size=14)).map(
+            lambda t: [t[0], *t[1]])
     return st.lists(st.one_of(steps), min_size=1, max_size=14)
 
 
@@ -306,10 +309,12 @@ def history_case(ctx, hist):  # noqa: C901, PLR0912, PLR0915
     from sdc11073.xml_types import wsd_types
     wsdimpl.random = H.FixedRandom()
     wsd = wsdimpl.WSDiscovery('127.0.0.1')
-    rec = H.RecordingNetworkingThread()
+    from sdc11073.wsdiscovery import networkingthread as nt_mod
+    nt_mod.random = H.FixedRandom()
+    nt = H.mk_networking_thread(wsd)
+    rec = H.RecordingNetworkingThread(forward=nt)  # outbound messages pass the real bookkeeping (known message ids)
     wsd._networking_thread = rec  # noqa: SLF001
     wsd._server_started = True  # noqa: SLF001
-    nt = H.mk_networking_thread(wsd)
     dispatched = []
     orig = wsd.handle_received_message
 
@@ -325,11 +330,12 @@ def history_case(ctx, hist):  # noqa: C901, PLR0912, PLR0915
         types = [etree.QName('urn:t', 'A')] + ([etree.QName('urn:t', 'B')] if i else [])
         wsd.publish_service(epr, types, sc, [f'http://10.0.0.9:80/{i}'])
         local[epr] = ([('urn:t', 'A')] + ([('urn:t', 'B')] if i else []), list(sc.text))
-    own_ids = [m.p_msg.header_info_block.MessageID for m, *_ in rec.outbound]
-    del rec.outbound[:]
     model = Model()
+    for m, *_ in rec.outbound:  # the node remembers the ids of its own messages too
+        model.remember(m.p_msg.header_info_block.MessageID)
+    del rec.outbound[:]
     out = []
-    flags = {'dup': False, 'out_of_order': False}
+    flags = {'dup': False, 'out_of_order': False, 'answered': False, 'dup-after-200': False}
     seq = 0
     for si, step in enumerate(hist):
         if step[0] == 'filler':
@@ -339,8 +345,10 @@ def history_case(ctx, hist):  # noqa: C901, PLR0912, PLR0915
                 mid, data = _mk_message(['resolve', 'urn:uuid:unknown', 10_000 + si * 1000 + k], 0)
                 datagrams.append((('10.0.0.1', 3702), data))
                 model.remember(mid)
+            n_out = len(rec.outbound)
             H.run_q_read(nt, datagrams)
-            del rec.outbound[:]
+            if rec.outbound[n_out:]:
+                raise R.HarnessError('filler messages must not be answered: ' + str([(m.p_msg.header_info_block.Action, a) for m, a, *_ in rec.outbound][:3]))
             del dispatched[:]
             continue
         seq += 1
@@ -351,12 +359,17 @@ def history_case(ctx, hist):  # noqa: C901, PLR0912, PLR0915
         is_dup = mid in model.known_ids
         if is_dup:
             flags['dup'] = True
+            if len(model.known_ids) >= 200:
+                flags['dup-after-200'] = True
             if dispatched:
                 out.append((f'{P}/history/duplicate-id-dispatched/{step[0]}',
                             f'step {si} {step}: message id {mid} is among the last 200 recorded ids but was dispatched again'))
                 break
             continue
         model.remember(mid)
+        for m, *_ in rec.outbound[before_out:]:
+            model.remember(m.p_msg.header_info_block.MessageID)
+            flags['answered'] = True
         if dispatched != [mid]:
             out.append((f'{P}/history/not-dispatched/{step[0]}', f'step {si} {step}: a new message id was not dispatched '
                                                                  f'(dispatched: {dispatched})'))
@@ -425,7 +438,6 @@ def history_case(ctx, hist):  # noqa: C901, PLR0912, PLR0915
                                     f'step {si} {step}: {epr} v{v} {name} = {got} does not belong to version {v}'))
         if out:
             break
-    _ = own_ids
     ctx.case(hist, flags['dup'] or flags['out_of_order'], 'history',
              classes=tuple({s[0] for s in hist}) + tuple(k for k, v in flags.items() if v))
     return out
@@ -445,7 +457,7 @@ def shard(ctx, which, n):
 def run(ctx):
     q = ctx.tier == 'quick'
     jobs = [('scope', 2500 if q else 150000)] * 5 + [('filter', 800 if q else 40000)] * 3 + [
-        ('history', 60 if q else 1500)] * 6 + [('history_long', 10 if q else 300)] * 2
+        ('history', 60 if q else 1500)] * 5 + [('history_long', 40 if q else 600)] * 3
     R.run_shards(ctx, __name__, 'shard', jobs)
 
 
